@@ -5,7 +5,7 @@
 From Coq Require Import ZArith List Bool Lia.
 From Coq Require String. Import String.StringSyntax.
 From DV Require Import Model.PyPrims Model.C13Model Model.C13GenPrims Gen.Routes Proofs.C13GenStmts
-  Proofs.C13GenReader.
+  Proofs.C13GenReader Proofs.C13GenGlue.
 Import ListNotations.
 Open Scope Z_scope.
 
@@ -16,23 +16,8 @@ Variable parse_tree : mapper -> tz -> res (option T * mapper * tz).
 Variable set_label : T -> option str -> T.
 Variable add_comments : T -> list str -> T.
 
-(* What `dataio.get_reader(schema)` returns and what its read_tree_lists does (DataReader.read_tree_lists,
-   <Reader>._read: hand-written glue): a fresh reader over the document with the route's namespace as
-   namespace 0 and, for the pseudo-factory, the target list as list 0; NEXUS runs the COMPILED
-   _parse_nexus_stream, NEWICK the model's reader; the product's tree lists are self._tree_lists. *)
-Definition route_reader (sch : schema) : reader_obj T :=
-  mkReader T false (fun attached tlf fuel d tl =>
-    match sch with
-    | Nexus =>
-      do r <- g_parse_nexus_stream T lower upper parse_tree set_label add_comments
-                (mkNsCfg attached (FacFixed true)) tlf false fuel
-                (nexus_init T (mkCfg (mkNsCfg attached (FacFixed true)) tlf) [] d) tt ;;
-      let s := snd r in
-      Ok (rs_blocks T s, match tlf with TLFixed => tl ++ rs_list0 T s | TLNew => tl end)
-    | Newick =>
-      do r <- newick_read T lower parse_tree [] d ;;
-      Ok ([fst r], match tlf with TLFixed => tl ++ fst r | TLNew => tl end)
-    end).
+Notation route_reader := (route_reader T lower upper parse_tree set_label add_comments).
+Notation NR := (nexus_read T lower upper parse_tree set_label add_comments true true).
 
 Notation TG := (tree_get T lower upper parse_tree set_label add_comments true true true true).
 Notation TLG := (treelist_get_off T lower upper parse_tree set_label add_comments true true true).
@@ -42,15 +27,12 @@ Theorem g_tree_entry_eq : forall sch (d : doc) c k,
   = (do t <- TG sch c k d ;; Ok (t, tt)).
 Proof.
   intros sch d c k.
-  unfold g_tree_parse_and_create_from_stream, tree_get, read_blocks, ifc_read_tree_lists, rd_attach, route_reader.
-  cbn [rd_run rd_attached].
+  unfold g_tree_parse_and_create_from_stream, tree_get, read_blocks, ifc_read_tree_lists, rd_attach, C13GenGlue.route_reader, route_reader_ns.
+  cbn [rd_run rd_attached]. rewrite route_run_ns_eq.
   assert (E : forall (c' k' : Z),
     (do r4__ <- (do x <- (match sch with
                   | Nexus =>
-                    do r <- g_parse_nexus_stream T lower upper parse_tree set_label add_comments
-                              (mkNsCfg true (FacFixed true)) TLNew false (doc_fuel d)
-                              (nexus_init T (mkCfg (mkNsCfg true (FacFixed true)) TLNew) [] d) tt ;;
-                    let s := snd r in Ok (rs_blocks T s, @nil T)
+                    do s <- NR (mkCfg (mkNsCfg true (FacFixed true)) TLNew) [] d ;; Ok (rs_blocks T s, @nil T)
                   | Newick => do r <- newick_read T lower parse_tree [] d ;; Ok ([fst r], @nil T)
                   end) ;; Ok (fst x, snd x, tt)) ;;
      let '(v_tree_lists, _, s) := r4__ in
@@ -80,7 +62,7 @@ Proof.
       destruct (py_index [ts] c') as [tl|]; [|reflexivity].
       rewrite negb_involutive. destruct (is_nil tl); cbn [bind]; [reflexivity|].
       destruct (py_index tl k'); reflexivity.
-    - unfold nexus_read, cfg_blocks. cbn [c_ns c_tlfac]. rewrite g_parse_nexus_stream_eq.
+    - unfold nexus_read, cfg_blocks. cbn [c_ns c_tlfac].
       destruct (r_parse_nexus_stream T lower upper parse_tree set_label add_comments true
                   (mkNsCfg true (FacFixed true)) TLNew false true (doc_fuel d)
                   (nexus_init T (mkCfg (mkNsCfg true (FacFixed true)) TLNew) [] d)) as [s| |];
@@ -98,31 +80,25 @@ Theorem g_treelist_entry_eq : forall sch (d : doc) c k,
   = (do l <- TLG sch c k d ;; Ok (l, tt)).
 Proof.
   intros sch d c k.
-  unfold g_treelist_parse_and_create_from_stream, treelist_get_off, ifc_read_tree_lists, rd_attach, route_reader, ifc_extend.
-  cbn [rd_run rd_attached].
+  unfold g_treelist_parse_and_create_from_stream, treelist_get_off, ifc_read_tree_lists, rd_attach, C13GenGlue.route_reader, route_reader_ns, ifc_extend.
+  cbn [rd_run rd_attached]. rewrite !route_run_ns_eq.
   assert (ALL : (do r1__ <- (do x <- (match sch with
                   | Nexus =>
-                    do r <- g_parse_nexus_stream T lower upper parse_tree set_label add_comments
-                              (mkNsCfg true (FacFixed true)) TLFixed false (doc_fuel d)
-                              (nexus_init T (mkCfg (mkNsCfg true (FacFixed true)) TLFixed) [] d) tt ;;
-                    let s := snd r in Ok (rs_blocks T s, [] ++ rs_list0 T s)
+                    do s <- NR (mkCfg (mkNsCfg true (FacFixed true)) TLFixed) [] d ;; Ok (rs_blocks T s, [] ++ rs_list0 T s)
                   | Newick => do r <- newick_read T lower parse_tree [] d ;; Ok ([fst r], [] ++ fst r)
                   end) ;; Ok (fst x, snd x, tt)) ;;
                  let '(_, v_tree_list, s) := r1__ in Ok (s, v_tree_list))
                = (do r <- treelist_get T lower upper parse_tree set_label add_comments true true true sch d ;; Ok (tt, fst r))).
   { unfold treelist_get, treelist_read. destruct sch.
     - destruct (newick_read T lower parse_tree [] d) as [[ts ns]| |]; reflexivity.
-    - unfold nexus_read, cfg_list. cbn [c_ns c_tlfac]. rewrite g_parse_nexus_stream_eq.
+    - unfold nexus_read, cfg_list. cbn [c_ns c_tlfac].
       destruct (r_parse_nexus_stream T lower upper parse_tree set_label add_comments true
                   (mkNsCfg true (FacFixed true)) TLFixed false true (doc_fuel d)
                   (nexus_init T (mkCfg (mkNsCfg true (FacFixed true)) TLFixed) [] d)) as [s| |]; reflexivity. }
   assert (OFF : forall (c' : Z) (k0 : option Z),
     (do r5__ <- (do x <- (match sch with
                   | Nexus =>
-                    do r <- g_parse_nexus_stream T lower upper parse_tree set_label add_comments
-                              (mkNsCfg true (FacFixed true)) TLNew false (doc_fuel d)
-                              (nexus_init T (mkCfg (mkNsCfg true (FacFixed true)) TLNew) [] d) tt ;;
-                    let s := snd r in Ok (rs_blocks T s, @nil T)
+                    do s <- NR (mkCfg (mkNsCfg true (FacFixed true)) TLNew) [] d ;; Ok (rs_blocks T s, @nil T)
                   | Newick => do r <- newick_read T lower parse_tree [] d ;; Ok ([fst r], @nil T)
                   end) ;; Ok (fst x, snd x, tt)) ;;
      let '(v_tree_lists, v_tree_list, s) := r5__ in
@@ -168,7 +144,7 @@ Proof.
       rewrite Z.geb_leb. destruct (Z.of_nat (length tl) <=? k'); reflexivity. }
     destruct sch.
     - destruct (newick_read T lower parse_tree [] d) as [[ts ns]| |]; cbn [bind fst snd]; try reflexivity. apply SEL.
-    - unfold nexus_read, cfg_blocks. cbn [c_ns c_tlfac]. rewrite g_parse_nexus_stream_eq.
+    - unfold nexus_read, cfg_blocks. cbn [c_ns c_tlfac].
       destruct (r_parse_nexus_stream T lower upper parse_tree set_label add_comments true
                   (mkNsCfg true (FacFixed true)) TLNew false true (doc_fuel d)
                   (nexus_init T (mkCfg (mkNsCfg true (FacFixed true)) TLNew) [] d)) as [s| |];
@@ -193,6 +169,112 @@ Proof.
       replace B with (do r <- treelist_get T lower upper parse_tree set_label add_comments true true true sch d ;; Ok (tt, fst r))
         by (symmetry; apply ALL) end.
     destruct (treelist_get _ _ _ _ _ _ _ _ _ _ _) as [[l ns]| |]; reflexivity.
+Qed.
+
+(* TreeList.read(..) into an existing list (trees tl0) whose namespace holds ns0: the trees afterwards *)
+Theorem g_treelist_read_eq : forall sch (ns0 : list str) (d : doc) (tl0 : list T),
+  g_treelist_parse_and_create_from_stream T (doc_fuel d) tt
+    (route_reader_ns T lower upper parse_tree set_label add_comments sch ns0) d None None tl0
+  = (do r <- treelist_read T lower upper parse_tree set_label add_comments true true true sch ns0 d ;;
+     Ok (tl0 ++ fst r, tt)).
+Proof.
+  intros sch ns0 d tl0.
+  unfold g_treelist_parse_and_create_from_stream, ifc_read_tree_lists, rd_attach, route_reader_ns, treelist_read.
+  cbn [oz_is_none negb andb bind rd_run rd_attached]. rewrite route_run_ns_eq.
+  destruct sch.
+  - destruct (newick_read T lower parse_tree ns0 d) as [[ts ns]| |]; reflexivity.
+  - unfold cfg_list.
+    destruct (nexus_read T lower upper parse_tree set_label add_comments true true
+                (mkCfg (mkNsCfg true (FacFixed true)) TLFixed) ns0 d) as [s| |]; reflexivity.
+Qed.
+
+(* ---- DataSet._parse_and_create_from_stream ---- *)
+(* DataSet.get(.., exclude_chars=True), with a taxon_namespace argument (a = true) or without *)
+Theorem g_dataset_entry_eq : forall sch (d : doc) (a : bool),
+  g_dataset_parse_and_create_from_stream T (doc_fuel d) tt (route_reader sch) d (attached_ns a) false true
+  = (do bl <- dataset_get T lower upper parse_tree set_label add_comments true true sch a d ;;
+     Ok ((attached_ns a, bl), tt)).
+Proof.
+  intros sch d a.
+  unfold g_dataset_parse_and_create_from_stream, ifc_read_dataset, C13GenGlue.route_reader, route_reader_ns, ds_new, ds_attach.
+  destruct a; cbn [attached_ns on_is_none negb bind fst snd rd_dataset rd_attached app].
+  - pose proof (route_dataset_eq T lower upper parse_tree set_label add_comments sch true d) as R. cbn [attached_ns] in R. rewrite R.
+    destruct (dataset_get _ _ _ _ _ _ _ _ _ _ _) as [bl| |]; reflexivity.
+  - pose proof (route_dataset_eq T lower upper parse_tree set_label add_comments sch false d) as R. cbn [attached_ns] in R. rewrite R.
+    destruct (dataset_get _ _ _ _ _ _ _ _ _ _ _) as [bl| |]; reflexivity.
+Qed.
+
+(* ---- TreeArray.read_from_files ---- *)
+Lemma skipn_offset_step : forall (x : T) (l : list T) (k j : Z),
+  (0 <= j)%Z ->
+  (if (j >=? k)%Z then [x] else []) ++ skipn (Z.to_nat (k - (j + 1))) l = skipn (Z.to_nat (k - j)) (x :: l).
+Proof.
+  intros x l k j HJ. destruct (j >=? k)%Z eqn:E.
+  - apply Z.geb_le in E. replace (Z.to_nat (k - (j + 1))) with O by lia. replace (Z.to_nat (k - j)) with O by lia. reflexivity.
+  - rewrite Z.geb_leb in E. apply Z.leb_gt in E.
+    replace (Z.to_nat (k - j)) with (S (Z.to_nat (k - (j + 1)))) by lia. reflexivity.
+Qed.
+
+Lemma treearray_loop : forall (Y : yielder_t T) (k : Z) (l : list T) (i0 j : Z) (added : list T),
+  (0 <= j)%Z ->
+  for_res (fun (acc__ : unit * option Z * option Z * list T) '(v_tree_idx, v_tree) =>
+             let '(s, v_current_source_index, v_current_tree_offset, v_added) := acc__ in
+             let v_current_yielder_index : Z := yl_file_index T Y in
+             do r2__ <- (if negb (oz_eqb v_current_source_index v_current_yielder_index)
+                         then Ok (s, Some v_current_yielder_index, Some 0%Z)
+                         else Ok (s, v_current_source_index, v_current_tree_offset)) ;;
+             let '(s, v_current_source_index, v_current_tree_offset) := r2__ in
+             do r1__ <- (if (oz_get v_current_tree_offset >=? k)%Z then Ok (s, v_added ++ [v_tree]) else Ok (s, v_added)) ;;
+             let '(s, v_added) := r1__ in
+             Ok (s, v_current_source_index, oz_add v_current_tree_offset 1%Z, v_added))
+          (enum_z_from i0 l) (tt, Some 0%Z, Some j, added)
+  = Ok (tt, Some 0%Z, Some (j + Z.of_nat (length l))%Z, added ++ skipn (Z.to_nat (k - j)) l).
+Proof.
+  intros Y k; induction l as [|x l IH]; intros i0 j added HJ.
+  - cbn [enum_z_from for_res length Z.of_nat]. rewrite Z.add_0_r.
+    replace (skipn (Z.to_nat (k - j)) (@nil T)) with (@nil T) by (destruct (Z.to_nat (k - j)); reflexivity).
+    rewrite app_nil_r. reflexivity.
+  - cbn [enum_z_from for_res]. unfold yl_file_index. cbn [oz_eqb Z.eqb negb bind oz_get oz_add].
+    destruct (j >=? k)%Z eqn:E; cbn [bind].
+    + rewrite IH by lia.
+      replace (j + 1 + Z.of_nat (length l))%Z with (j + Z.of_nat (length (x :: l)))%Z by (cbn [length]; lia).
+      rewrite <- app_assoc, <- (skipn_offset_step x l k j HJ), E. reflexivity.
+    + rewrite IH by lia.
+      replace (j + 1 + Z.of_nat (length l))%Z with (j + Z.of_nat (length (x :: l)))%Z by (cbn [length]; lia).
+      rewrite <- (skipn_offset_step x l k j HJ), E. reflexivity.
+Qed.
+
+(* TreeArray.read(.., tree_offset=k) = read_from_files([one file], ..): the trees passed to add_tree when the
+   iterator is exhausted; the iterator's error otherwise *)
+Theorem g_treearray_read_eq : forall (Y : yielder_t T) (k : Z) (added : list T) fuel,
+  g_treearray_read_from_files T fuel tt Y k added
+  = (do _ <- snd Y ;; Ok (tt, added ++ skipn (Z.to_nat k) (fst Y), tt)).
+Proof.
+  intros Y k added fuel. unfold g_treearray_read_from_files, yl_items, yl_end, enum_z.
+  destruct (fst Y) as [|x l] eqn:EL.
+  - cbn [enum_z_from for_res bind].
+    replace (skipn (Z.to_nat k) (@nil T)) with (@nil T) by (destruct (Z.to_nat k); reflexivity).
+    rewrite app_nil_r. destruct (snd Y) as [[]| |]; reflexivity.
+  - (* the first tree: current_source_index None != 0 *)
+    cbn [enum_z_from for_res]. unfold yl_file_index at 1. cbn [oz_eqb negb bind oz_get oz_add].
+    pose proof (treearray_loop Y k l (0 + 1)%Z 1%Z) as L.
+    destruct (0 >=? k)%Z eqn:E; cbn [bind Z.add].
+    + match goal with |- context [for_res ?ff ?ll ?aa] =>
+        replace (for_res ff ll aa)
+          with (Ok (tt, Some 0%Z, Some (1 + Z.of_nat (length l))%Z, (added ++ [x]) ++ skipn (Z.to_nat (k - 1)) l))
+          by (symmetry; exact (L (added ++ [x]) ltac:(lia))) end.
+      cbn [bind].
+      rewrite <- app_assoc. pose proof (skipn_offset_step x l k 0%Z (Z.le_refl _)) as SS. rewrite E in SS.
+      cbn [Z.add] in SS. rewrite Z.sub_0_r in SS. rewrite SS.
+      destruct (snd Y) as [[]| |]; reflexivity.
+    + match goal with |- context [for_res ?ff ?ll ?aa] =>
+        replace (for_res ff ll aa)
+          with (Ok (tt, Some 0%Z, Some (1 + Z.of_nat (length l))%Z, added ++ skipn (Z.to_nat (k - 1)) l))
+          by (symmetry; exact (L added ltac:(lia))) end.
+      cbn [bind].
+      pose proof (skipn_offset_step x l k 0%Z (Z.le_refl _)) as SS. rewrite E in SS.
+      cbn [Z.add app] in SS. rewrite Z.sub_0_r in SS. rewrite SS.
+      destruct (snd Y) as [[]| |]; reflexivity.
 Qed.
 
 End S.
